@@ -2,8 +2,9 @@
   C08 — type-class dispatch returns exactly what the type declares.
 
   Property theorems only.  Model: Cello/Dispatch.lean (Type_Scan, Type_Instance with the Type_Cache_Entry list,
-  Type_Implements, Type_Method_At_Offset, Type_Implements_Method_At_Offset, Type_Of, cast, Type_New; the small-step
-  machine of one lookup as a sequence of atomic word accesses).  Spec: `declared` = the instance of the first triple with
+  Type_Implements, Type_Method_At_Offset, Type_Implements_Method_At_Offset, Type_Of, cast, Type_New word by word on a
+  storage with any previous contents, re-construction in place; the small-step machine of one lookup as a sequence of
+  atomic word accesses).  Spec: `declared` = the instance of the first triple with
   the class's name; `specObs` = what each lookup must return as a function of the declaration only.
   Source-derived facts: CelloGen/Disp.lean (Type_Cache_Entry table, CELLO_CACHE_NUM, CELLO_NBUILTINS, the declared
   matrix of every Cello(…) object, the texts of the modelled functions).  Lemmas: CelloProofs/Lemmas/Disp*.lean.
@@ -15,6 +16,7 @@ import CelloProofs.Lemmas.DispConc
 import CelloProofs.Lemmas.DispWorld
 import CelloProofs.Lemmas.DispSolo
 import CelloProofs.Lemmas.DispLive
+import CelloProofs.Lemmas.DispNew
 
 namespace Cello.Dispatch
 
@@ -78,7 +80,7 @@ theorem C08_source_as_modelled :
 
 /-! ## sequential lookups: every type record, every class, every history -/
 
-/-- **C08 (core).** For every Type_Cache_Entry table with distinct in-range indices, every type record `t` — any number
+/-- **C08 (core, one declaration).** For every Type_Cache_Entry table with distinct in-range indices, every type record `t` — any number
     of triples in any order, duplicate class names, distinct class objects that share a name — in any state that satisfies
     the invariant relative to a declaration `D` (in particular any state reachable from a freshly built record, see
     `C08_fresh_inv`), and every **history** of lookups (`type_instance`/`instance`, `type_implements`/`implements`,
@@ -86,7 +88,7 @@ theorem C08_source_as_modelled :
     what each lookup returns is `specObs D` — a function of the declaration and the requested class only, not of the
     history — and the invariant (cache word empty or declared instance of its slot's class; memoised class pointer empty
     or a class of the triple's name on the declared triple; triples unchanged) holds again afterwards. -/
-theorem C08_lookup_exact (slots : List (Nat × Cls)) (n : Nat) (hs : SlotsOK slots n)
+theorem C08_lookup_exact_record (slots : List (Nat × Cls)) (n : Nat) (hs : SlotsOK slots n)
     (D : String → Option Inst) (t : TypeRec) (h : Inv D slots n t) (ops : List Op) :
     (runOps slots t ops).2 = ops.map (specObs t.sentinel D) ∧ Inv D slots n (runOps slots t ops).1 :=
   runOps_spec hs ops t h
@@ -104,12 +106,147 @@ theorem C08_fresh_inv (slots : List (Nat × Cls)) (n : Nat) (hdr sent : Bool) (e
 theorem C08_current_source (hdr sent : Bool) (es : List (String × Inst)) (ops : List Op) :
     (runOps slotsNow (mkType CelloGen.Disp.cacheNum hdr es sent) ops).2 =
       ops.map (specObs sent (fun nm => (es.find? (fun p => p.1 = nm)).map (·.2))) := by
-  have h := (C08_lookup_exact slotsNow _ C08_slots_ok _ _ (mkType_inv slotsNow CelloGen.Disp.cacheNum hdr sent es) ops).1
+  have h := (C08_lookup_exact_record slotsNow _ C08_slots_ok _ _ (mkType_inv slotsNow CelloGen.Disp.cacheNum hdr sent es) ops).1
   rw [h]
   have hD : declared (mkType CelloGen.Disp.cacheNum hdr es sent).entries
       = fun nm => (es.find? (fun p => p.1 = nm)).map (·.2) := funext (declared_mkEntries es)
   rw [hD]
   rfl
+
+/-! ## the life cycle of run-time type objects: construction on any storage, re-construction in place -/
+
+/-- the layout constants of the current source as the model of `Type_New` uses them -/
+def layoutNow : Layout :=
+  { cacheNum := CelloGen.Disp.cacheNum, nBuiltins := CelloGen.Disp.nBuiltins, maxInstances := CelloGen.Disp.maxInstances }
+
+/-- G4: in the current source the cache words are whole `struct Type` cells and the instance triples start right after
+    the `__Name` and `__Size` cells — what `Type_New`'s index arithmetic (`cache_entries+0/1`, `CELLO_NBUILTINS-2+i`) needs -/
+theorem C08_layout_ok : LayoutOK layoutNow := ⟨by decide, by decide⟩
+
+/-- G5: `Type` declares `Instance(New, Type_New, NULL)` — a constructor and NO destructor, so `destruct(T)` leaves every
+    word of a type object as it is and `Type_New` alone decides what a re-constructed type object contains — and its own
+    `Assign` and `Copy` members (both refuse with ValueError): a type object cannot be overwritten through assign/copy. -/
+theorem C08_type_new_is_the_only_writer :
+    ((CelloGen.Disp.declared.find? (fun d => d.1 = "Type")).map
+        (fun d => (d.2.find? (fun i => i.1 = "New")).map (·.2))) = some (some [true, false]) ∧
+    ((CelloGen.Disp.declared.find? (fun d => d.1 = "Type")).map
+        (fun d => ((d.2.find? (fun i => i.1 = "Assign")).map (·.2), (d.2.find? (fun i => i.1 = "Copy")).map (·.2))))
+      = some (some [true], some [true]) := by decide
+
+/-- **`Type_New` re-establishes the invariant from ANY previous contents of the storage.** For the layout of the current
+    source, every storage `mem` of the size `Type_Alloc` reserves — no hypothesis on its words: zeroes, junk, or the
+    warmed cache words, memoised class pointers and triples of a previous incarnation of the type — and every instance
+    list of at most CELLO_MAX_INSTANCES: `Type_New` writes word for word the fresh type object of that list (all
+    CELLO_CACHE_NUM cache words NULL, `__Name`, `__Size`, the triples in argument order with NULL `cls` words, the NULL
+    terminator; the words after the terminator keep their old values), that storage reads back as `mkType … es`, and it
+    satisfies the lookup invariant ("each cache word is empty or holds the CURRENT declaration's instance, each memoised
+    class pointer is empty or sound") relative to the NEW declaration `declOf es`.  With more instances it raises
+    OutOfMemoryError before writing anything. -/
+theorem C08_type_new_any_storage (slots : List (Nat × Cls)) (hdr sent : Bool) (mem : List Word) (name : String) (size : Nat)
+    (es : List (String × Inst)) (hlen : mem.length = 3 * layoutNow.cells) :
+    (es.length ≤ CelloGen.Disp.maxInstances →
+      typeNewRaw layoutNow mem name size es =
+        ((freshStore layoutNow hdr sent name size es (mem.drop (3 * (layoutNow.nBuiltins + es.length + 1)))).toRaw, .ok ()) ∧
+      constructAt layoutNow hdr sent mem name size es =
+        (some (freshStore layoutNow hdr sent name size es (mem.drop (3 * (layoutNow.nBuiltins + es.length + 1)))), .ok ()) ∧
+      StoreOK layoutNow (declOf es) slots
+        (freshStore layoutNow hdr sent name size es (mem.drop (3 * (layoutNow.nBuiltins + es.length + 1))))) ∧
+    (CelloGen.Disp.maxInstances < es.length →
+      typeNewRaw layoutNow mem name size es = (mem, .raised .OutOfMemoryError)) := by
+  have sp := constructAt_spec C08_layout_ok slots hdr sent mem name size es hlen
+  constructor
+  · intro hn
+    have hfit : 3 * (layoutNow.nBuiltins + es.length + 1) ≤ mem.length := by
+      rw [hlen]; unfold Layout.cells; show _ ≤ 3 * (layoutNow.nBuiltins + CelloGen.Disp.maxInstances + 1); omega
+    exact ⟨typeNewRaw_eq_toRaw C08_layout_ok hdr sent mem name size es hn hfit, (sp.1 hn).1, (sp.1 hn).2⟩
+  · intro hn
+    have hn' : es.length > layoutNow.maxInstances := hn
+    unfold typeNewRaw
+    rw [if_pos hn']
+
+/-- a storage reads back (with the indices the C code uses) as exactly the type object whose words it holds: the raw
+    level and the record level of the model describe the same object -/
+theorem C08_storage_view (s : Store) (hc : s.trec.cache.length = CelloGen.Disp.cacheNum) :
+    Store.ofRaw layoutNow s.trec.hdr s.trec.sentinel s.toRaw = some s :=
+  ofRaw_toRaw C08_layout_ok s hc
+
+/-- **Re-construction in place** — `destruct(T); construct(T, name, size, instances…)` on a live run-time type object, in
+    ANY state of its cache words, memoised class pointers and triples (no invariant is assumed of the old incarnation, only
+    the size of the storage): the record becomes `mkType … es` — every cache word empty again, in EVERY slot — and the
+    object satisfies the invariant relative to the new declaration; with more than CELLO_MAX_INSTANCES instances
+    OutOfMemoryError is raised and the object is unchanged. -/
+theorem C08_reconstruct_in_place (slots : List (Nat × Cls)) (s : Store) (name : String) (size : Nat)
+    (es : List (String × Inst)) (hlen : s.toRaw.length = 3 * layoutNow.cells) :
+    (es.length ≤ CelloGen.Disp.maxInstances →
+      (constructIn layoutNow s name size es).2 = .ok () ∧
+      (constructIn layoutNow s name size es).1.trec = mkType CelloGen.Disp.cacheNum s.trec.hdr es s.trec.sentinel ∧
+      StoreOK layoutNow (declOf es) slots (constructIn layoutNow s name size es).1) ∧
+    (CelloGen.Disp.maxInstances < es.length → constructIn layoutNow s name size es = (s, .raised .OutOfMemoryError)) :=
+  constructIn_spec C08_layout_ok slots s name size es hlen
+
+/-- **C08 (core, whole life cycle).** For the Type_Cache_Entry table and layout of the current source, every run-time type
+    object whose record satisfies the invariant relative to the declaration `D` in force, and every **history** that
+    interleaves lookups (`type_instance`/`instance`, `type_implements`/`implements`, `type_method`/`method`,
+    `type_implements_method`/`implements_method`, white-box resets) — cold or warm, for classes in every cache slot and for
+    uncached classes — with **re-constructions in place** with arbitrary other instance lists (classes added, removed,
+    instance pointers changed, order changed, too many instances): every lookup returns `specObs` of the declaration
+    CURRENTLY in force (`specLife`: the instance list of the last successful construction), never of an earlier one; a
+    construction succeeds exactly when it has at most CELLO_MAX_INSTANCES instances and otherwise changes nothing; and the
+    invariant holds at the end relative to the declaration then in force. -/
+theorem C08_lookup_exact (D : String → Option Inst) (s : Store) (h : StoreOK layoutNow D slotsNow s) (ops : List LOp) :
+    (runLife layoutNow slotsNow s ops).2 = specLife CelloGen.Disp.maxInstances s.trec.sentinel D ops ∧
+    StoreOK layoutNow (declAfter CelloGen.Disp.maxInstances D ops) slotsNow (runLife layoutNow slotsNow s ops).1 :=
+  runLife_spec C08_layout_ok C08_slots_ok ops D s h
+
+/-- the same for any table and layout that satisfy the two side conditions (`SlotsOK`, `LayoutOK`) -/
+theorem C08_lookup_exact_any_layout (L : Layout) (hL : LayoutOK L) (slots : List (Nat × Cls)) (hs : SlotsOK slots L.cacheNum)
+    (D : String → Option Inst) (s : Store) (h : StoreOK L D slots s) (ops : List LOp) :
+    (runLife L slots s ops).2 = specLife L.maxInstances s.trec.sentinel D ops ∧
+    StoreOK L (declAfter L.maxInstances D ops) slots (runLife L slots s ops).1 :=
+  runLife_spec hL hs ops D s h
+
+/-- a storage as `Type_Alloc` returns it (calloc: all words NULL) -/
+def zeroStorage : List Word := List.replicate (3 * layoutNow.cells) Word.null
+
+/-- Non-vacuity of `C08_lookup_exact` / `C08_reconstruct_in_place` and the behaviour that a partial clearing of the cache
+    words would break: a type constructed with `Hash = A, Len = B, Show = C, Cmp = D`; `Hash` (slot 6), `Len` (slot 7) looked up —
+    the cache words 6 and 7 and two memoised class pointers are now set; re-constructed in place with `Show = C', Hash = A'`:
+    all cache words and memo words are empty again, the old fourth triple lies untouched after the new terminator, `Hash` now answers
+    `A'`, `Len` is absent (NULL, ClassError), and a 257-instance construction is refused and changes nothing. -/
+example :
+    let A : Inst := ⟨1, [true]⟩; let B : Inst := ⟨2, [true]⟩; let C : Inst := ⟨3, [true, false]⟩
+    let A' : Inst := ⟨11, [true]⟩; let C' : Inst := ⟨13, [false, true]⟩
+    let D : Inst := ⟨4, [true]⟩
+    let s0 := freshStore layoutNow true false "Foo" 8 [("Hash", A), ("Len", B), ("Show", C), ("Cmp", D)] (zeroStorage.drop (3 * (layoutNow.nBuiltins + 4 + 1)))
+    let hash : Cls := ⟨0, "Hash"⟩; let len : Cls := ⟨0, "Len"⟩
+    let warm := runLife layoutNow slotsNow s0 [.look (.lookup hash), .look (.methodAt len 0)]
+    let r := runLife layoutNow slotsNow warm.1
+      [.construct "Foo" 8 [("Show", C'), ("Hash", A')], .look (.lookup hash), .look (.lookup len), .look (.methodAt len 0),
+       .construct "Big" 0 (List.replicate 257 ("Cmp", A)), .look (.implements hash)]
+    s0.toRaw.length = 3 * layoutNow.cells ∧
+    warm.1.trec.cache[6]? = some (some A) ∧ warm.1.trec.cache[7]? = some (some B) ∧
+    warm.1.trec.entries.map (·.memo) = [some hash, some len, none, none] ∧
+    warm.2 = [.look (.inst (.ok (some A))), .look (.meth (.ok B))] ∧
+    r.2 = [.constructed (.ok ()), .look (.inst (.ok (some A'))), .look (.inst (.ok none)), .look (.meth (.raised .ClassError)),
+           .constructed (.raised .OutOfMemoryError), .look (.bool (.ok true))] ∧
+    r.1.trec.cache[6]? = some (some A') ∧ r.1.trec.cache[7]? = some none ∧
+    r.1.trec.entries.map (·.name) = ["Show", "Hash"] ∧ r.1.name = "Foo" ∧
+    r.1.rest.take 3 = [Word.null, .str "Cmp", .inst D] := by
+  decide +kernel
+
+/-- A `Type_New` that cleared only the first `CELLO_CACHE_NUM/3` cache WORDS (`memset(t, 0, sizeof(var) * cache_entries)`: the
+    planted bug of the self-test) instead of `CELLO_CACHE_NUM/3` cells is refuted by the invariant on a warm type object:
+    word 6 (`Hash`) keeps the instance of the previous incarnation, which is not what the new instance list declares —
+    whereas the model of the code as it is (`constructIn`) empties that word. -/
+theorem C08_partial_cache_clear_refuted :
+    let A : Inst := ⟨1, [true]⟩; let A' : Inst := ⟨11, [true]⟩
+    let s0 := freshStore layoutNow true false "Foo" 8 [("Hash", A)] (zeroStorage.drop (3 * (layoutNow.nBuiltins + 1 + 1)))
+    let warm := (runLife layoutNow slotsNow s0 [.look (.lookup ⟨0, "Hash"⟩)]).1
+    let partialClear := List.replicate (layoutNow.cacheNum / 3) Word.null ++ warm.toRaw.drop (layoutNow.cacheNum / 3)
+    (viewCache (partialClear.take layoutNow.cacheNum)).map (·[6]?) = some (some (some A)) ∧
+    declOf [("Hash", A')] "Hash" = some A' ∧ A ≠ A' ∧
+    (constructIn layoutNow warm "Foo" 8 [("Hash", A')]).1.trec.cache[6]? = some none := by
+  decide +kernel
 
 /-- `Type_New` refuses more than `CELLO_MAX_INSTANCES` instances and otherwise builds exactly the record of its arguments -/
 theorem C08_type_new (es : List (String × Inst)) :
